@@ -40,6 +40,8 @@ type C20Call struct {
 	Relation string `json:"relation"`
 	User     string `json:"user"`
 	CancelAt int    `json:"cancel_at"` // cancel the client context at the n-th datastore read (0 = never)
+	// FailOpenAt: the n-th iterator open of the call fails with a datastore error (0 = never)
+	FailOpenAt int `json:"fail_open_at,omitempty"`
 }
 
 type C20Case struct {
@@ -56,7 +58,7 @@ type C20Case struct {
 
 func genC20(t *rapid.T) C20Case {
 	c := C20Case{
-		Family:   rapid.IntRange(0, 2).Draw(t, "family"),
+		Family:   rapid.IntRange(0, 3).Draw(t, "family"),
 		Chain:    rapid.IntRange(3, 40).Draw(t, "chain"),
 		Cycle:    rapid.Bool().Draw(t, "cycle"),
 		Fanout:   []int{0, 5, 50, 150, 300}[rapid.IntRange(0, 4).Draw(t, "fanout")],
@@ -71,8 +73,11 @@ func genC20(t *rapid.T) C20Case {
 		call := C20Call{API: apis[rapid.IntRange(0, len(apis)-1).Draw(t, "api")]}
 		call.Object = fmt.Sprintf("%d", rapid.IntRange(0, c.Chain).Draw(t, "obj"))
 		call.User = fmt.Sprintf("%d", rapid.IntRange(0, 3).Draw(t, "user"))
-		if rapid.Bool().Draw(t, "cancel") {
+		switch rapid.IntRange(0, 3).Draw(t, "fault") {
+		case 0, 1:
 			call.CancelAt = rapid.IntRange(1, 40).Draw(t, "cancelAt")
+		case 2:
+			call.FailOpenAt = rapid.IntRange(1, 8).Draw(t, "failOpenAt")
 		}
 		c.Calls = append(c.Calls, call)
 	}
@@ -115,6 +120,30 @@ func c20World(c C20Case) (gen.World, string, string) {
 			ts = append(ts, m.Tuple{Object: fmt.Sprintf("folder:f%d", j), Relation: "parent", User: fmt.Sprintf("folder:%d", c.Chain)})
 		}
 		ts = append(ts, m.Tuple{Object: fmt.Sprintf("folder:%d", c.Chain/2), Relation: "viewer", User: "user:1"})
+	case 3: // relations reached through several parent / userset types (weight-2 fast paths open one read per type)
+		objType, rel = "doc", "viewer"
+		if c.Cycle {
+			rel = "editor"
+		}
+		member := func() []m.Relation {
+			return []m.Relation{{Name: "member", Rewrite: &m.Rewrite{Kind: m.This}, Restr: []m.Restriction{{Type: "user"}}}}
+		}
+		mo = &m.Model{Types: []m.TypeDef{{Name: "user"}, {Name: "group", Relations: member()}, {Name: "org", Relations: member()}, {Name: "team", Relations: member()},
+			{Name: "doc", Relations: []m.Relation{
+				{Name: "parent", Rewrite: &m.Rewrite{Kind: m.This}, Restr: []m.Restriction{{Type: "group"}, {Type: "org"}, {Type: "team"}}},
+				{Name: "viewer", Rewrite: &m.Rewrite{Kind: m.TTU, Tupleset: "parent", Rel: "member"}},
+				{Name: "editor", Rewrite: &m.Rewrite{Kind: m.This}, Restr: []m.Restriction{{Type: "group", Rel: "member"}, {Type: "org", Rel: "member"}, {Type: "team", Rel: "member"}}},
+			}}}}
+		for i := 0; i <= c.Chain; i++ {
+			for _, pt := range []string{"group", "org", "team"} {
+				ts = append(ts, m.Tuple{Object: fmt.Sprintf("doc:%d", i), Relation: "parent", User: fmt.Sprintf("%s:%d", pt, i)},
+					m.Tuple{Object: fmt.Sprintf("doc:%d", i), Relation: "editor", User: fmt.Sprintf("%s:%d#member", pt, i)})
+			}
+			ts = append(ts, m.Tuple{Object: fmt.Sprintf("team:%d", i), Relation: "member", User: fmt.Sprintf("user:%d", i%4)})
+		}
+		for j := 0; j < c.Fanout; j++ {
+			ts = append(ts, m.Tuple{Object: fmt.Sprintf("group:%d", j%(c.Chain+1)), Relation: "member", User: fmt.Sprintf("user:f%d", j)})
+		}
 	default: // two mutually recursive types with exclusion on top
 		objType, rel = "doc", "can"
 		mo = &m.Model{Types: []m.TypeDef{{Name: "user"},
@@ -202,6 +231,9 @@ func checkC20(env *fw.Env, c C20Case) *fw.Failure {
 		if call.CancelAt > 0 {
 			fd.arm(call.CancelAt, cancel, false)
 		}
+		if call.FailOpenAt > 0 {
+			fd.armOpen(call.FailOpenAt)
+		}
 		var err error
 		t0 := time.Now()
 		returned := semkit.Watchdog(dl+slack+20*time.Second, func() {
@@ -224,6 +256,12 @@ func checkC20(env *fw.Env, c C20Case) *fw.Failure {
 		fired := false
 		if call.CancelAt > 0 {
 			fired = fd.disarm()
+		}
+		if call.FailOpenAt > 0 && fd.disarmOpen() {
+			classes = append(classes, "datastore-open-failed")
+			if err != nil {
+				landed = true
+			}
 		}
 		cancel()
 		classes = append(classes, "api:"+call.API)
